@@ -8,7 +8,23 @@
 #ifndef IDX
 #define IDX 0
 #endif
+/* objects reachable only through a Tuple stored by value inside a container must survive collections */
+static int probe_dead = 0; struct Probe { int x; };
+static void Probe_Del(var self) { probe_dead++; }
+var Probe = Cello(Probe, Instance(New, NULL, Probe_Del));
+static void __attribute__((noinline)) fill(var arr, int n) { for (int i = 0; i < n; i++) { var p = new(Probe); var q = new(Probe); push(arr, tuple(p, q)); } }
+static void __attribute__((noinline)) scrub(int depth) { volatile char pad[512]; for (int i = 0; i < 512; i++) pad[i] = 0; if (depth > 0) scrub(depth - 1); }
+static var embedded_worker(var args) {
+  var arr = new(Array, Tuple); fill(arr, 40); scrub(40);
+  for (int i = 0; i < 4000; i++) { new(Int, $I(i)); }       /* garbage, to force collections */
+  int dead = probe_dead; if (len(arr) != 40) dead = -1;
+  return dead ? $I(1) : NULL;
+}
+static volatile int embedded_bad = 0;
+static var embedded_run(var args) { embedded_bad = embedded_worker(args) != NULL; return NULL; }
 int main(int argc, char** argv) {
+  { var th = new(Thread, $(Function, embedded_run)); call(th); join(th);
+    if (embedded_bad) { printf("REPRODUCED: objects held only by Tuples stored inside an Array were finalised by a collection while the Array was alive (%d finalised)\n", probe_dead); return 1; } }
   int bad = 0;
   /* backward iteration over an empty Tuple ends at once */
   { var t = tuple(); int n = 0; for (var x = iter_last(t); x isnt Terminal && n < 3; x = iter_prev(t, x)) n++; if (n) { printf("REPRODUCED: backward iteration over tuple() yields %d items\n", n); bad = 1; } }
